@@ -143,11 +143,12 @@ var callRe = regexp.MustCompile(`^\w+\((.*)\)\s+= (.*)$`)
 var resumedRe = regexp.MustCompile(`^<\.\.\. (\w+) resumed>(.*)$`)
 
 // parseStrace returns the completed system calls in completion order, the
-// inject-set calls entered by the busiest thread, and whether the process was killed.
-func parseStrace(path string) (calls []rawCall, seq []string, killed bool, err error) {
+// inject-set calls entered by the busiest thread, the calls still in flight at the
+// end of the trace, and whether the process was killed.
+func parseStrace(path string) (calls []rawCall, seq []string, inflight []string, killed bool, err error) {
 	f, err := os.Open(path)
 	if err != nil {
-		return nil, nil, false, err
+		return nil, nil, nil, false, err
 	}
 	defer f.Close()
 	sc := bufio.NewScanner(f)
@@ -161,6 +162,12 @@ func parseStrace(path string) (calls []rawCall, seq []string, killed bool, err e
 			if len(v) > len(seq) {
 				seq = v
 			}
+		}
+		// calls entered but never reported as finished: when the process is killed their
+		// effect may or may not have been applied (the call injected on is NOT applied, but
+		// calls in flight on other threads are undetermined)
+		for _, body := range pending {
+			inflight = append(inflight, body)
 		}
 	}()
 	ln := 0
@@ -202,7 +209,7 @@ func parseStrace(path string) (calls []rawCall, seq []string, killed bool, err e
 		rc := rawCall{line: ln, name: rest[:p], args: splitArgs(m[1]), ret: strings.TrimSpace(m[2]), text: strings.Join(strings.Fields(rest), " ")}
 		calls = append(calls, rc)
 	}
-	return calls, seq, killed, sc.Err()
+	return calls, seq, inflight, killed, sc.Err()
 }
 
 // ---- reduction to the model alphabet ---------------------------------------------
@@ -284,12 +291,13 @@ type reducer struct {
 	dirs    map[string]int
 	names   map[string]int
 	paths   map[string]mpath // every alphabet path mentioned, by rel
+	fdPath  map[int64]string // descriptor -> path it was opened on (alphabet descriptors only)
 	isDir   map[string]bool  // rel paths known to be directories (opened as a directory, mkdir'ed, or parent of a file)
 	calls   []mcall
 }
 
 func newReducer(root string, inplace bool) *reducer {
-	return &reducer{root: filepath.Clean(root), inplace: inplace, dirs: map[string]int{}, names: map[string]int{}, paths: map[string]mpath{}, isDir: map[string]bool{}}
+	return &reducer{root: filepath.Clean(root), inplace: inplace, dirs: map[string]int{}, names: map[string]int{}, paths: map[string]mpath{}, isDir: map[string]bool{}, fdPath: map[int64]string{}}
 }
 
 var ltxRe = regexp.MustCompile(`^(\.db-litestream|replica)/ltx/(\d+)/([0-9a-f]{16})-([0-9a-f]{16})\.ltx$`)
@@ -450,6 +458,7 @@ func (r *reducer) feed(rc rawCall, acks *[]ackLine) {
 			return
 		}
 		flags := rc.args[2]
+		r.fdPath[ret] = filepath.Clean(abs)
 		switch {
 		case strings.Contains(flags, "O_CREAT"):
 			tr := int64(0)
@@ -505,6 +514,14 @@ func (r *reducer) feed(rc rawCall, acks *[]ackLine) {
 		case "fsync", "fdatasync":
 			r.emit(mcall{tag: 6, fd: fd, src: rc.line, text: short()})
 		case "close":
+			// Descriptor numbers are reused across threads and calls are ordered by
+			// completion: the close of an OLD descriptor can be reported after another
+			// thread's open already received the same number. Such a close (its path is
+			// not the one the number is bound to now) must not close the new descriptor.
+			if cur, ok := r.fdPath[fd]; ok && cur != filepath.Clean(fp) {
+				return
+			}
+			delete(r.fdPath, fd)
 			r.emit(mcall{tag: 7, fd: fd, src: rc.line, text: short()})
 		}
 	case "copy_file_range", "sendfile":
